@@ -106,3 +106,42 @@ Definition key_hash_wf (f : fn_def) : bool :=
 
 Lemma cache_keys_compare_type_and_id : key_eq_wf dynKey_eq = true /\ key_hash_wf dynKey_hash = true.
 Proof. vm_compute. split; reflexivity. Qed.
+
+(* the order of a pass: every changed entry is visited with ONE visited set and ONE post-order list,
+   and the list is reversed once, as a whole, when it is consumed (dependencies first for the whole
+   pass, not per changed entry) *)
+Definition topo_wf (f : fn_def) : bool :=
+  match fn_body f with
+  | [ELetS (PIdent "sort_data" None)
+       (Some (EStruct ["TopologicalSortData"] [("visited", ECall (EPath ["HashSet"; "new"]) []); ("list", ECall (EPath ["Vec"; "new"]) [])])) None;
+     EFor (PIdent k None) (EPath ["iter"])
+       [ESemi (EMethod (EPath ["self"]) "visit" [ERef (EPath ["sort_data"]); EMethod (EPath [k']) "as_dependency" []])];
+     ECall (EPath ["TopologicalSort"]) [EField (EPath ["sort_data"]) "list"]] => String.eqb k k'
+  | _ => false
+  end.
+Definition into_iter_reverses (f : fn_def) : bool :=
+  match fn_body f with
+  | [EMethod (EMethod (EField (EPath ["self"]) "0") "into_iter" []) "rev" []] => true
+  | _ => false
+  end.
+Lemma pass_order_is_one_reversed_post_order :
+  topo_wf DepsGraph_topological_sort_from = true /\ into_iter_reverses TopologicalSort_into_iter = true.
+Proof. vm_compute. split; reflexivity. Qed.
+
+(* FileSystem's id -> path mapping: root, then the id's segments, then for a file the extension
+   through set_extension (an empty extension adds nothing) -- or, for the empty id, a ".ext" child *)
+From AM Require Import Gen.Private.
+Definition path_of_entry_wf (f : fn_def) : bool :=
+  let b := fn_body f in
+  existsb (fun e => match e with ESemi (EMethod (EPath ["path"]) "push" [EPath ["root"]]) => true | _ => false end) b
+  && existsb (fun e => match e with ESemi (EMethod (EPath ["path"]) "extend" [EMethod (EPath ["id"]) "split" [ELit (LChar ".")]]) => true | _ => false end) b
+  && existsb (fun e => match e with
+                       | EIf (ELet (PTupleStruct ["Some"] [PIdent x None]) (EPath ["ext"]))
+                           [EIf (EMethod (EPath ["id"]) "is_empty" [])
+                              [ESemi (EMethod (EPath ["path"]) "push" [EMacro "format" [ELit (LStr ".{ext}")]])]
+                              (Some (EBlock [ESemi (EMethod (EPath ["path"]) "set_extension" [EPath [x']])]))] None => String.eqb x x'
+                       | _ => false end) b
+  && match last b (EOther "") with EPath ["path"] => true | _ => false end
+  && Nat.eqb (List.length b) 7.
+Lemma path_of_entry_as_specified : path_of_entry_wf path_of_entry = true.
+Proof. vm_compute. reflexivity. Qed.
